@@ -349,30 +349,30 @@ theorem decodeFs_shape : ∀ (fs : List (String × KS)) (dfs : List (String × T
         simp only [shapeF, hs.1, decodeFs_shape fs dfs kvs rest hs.2 h2, Bool.and_self]
 end
 
-theorem kindAt_ptr_opaque (s : KS) (p : List String) :
-    (kindAt (.ptr s) p).map isOpaqueKind = (kindAt s p).map isOpaqueKind := by
-  cases p <;> simp [kindAt, isOpaqueKind]
+/-- what the effective configuration shows for a leaf of kind `k` holding `x` -/
+def shownAs (k : Option KS) (x : Val) : Option EV := k.map (fun k => encodeV k (.atom x))
 
-/-- what the effective configuration shows for a leaf holding `x` -/
-def shown (opq : Option Bool) (x : Val) : EV := if opq = some true then .redacted else .val x
+theorem kindAt_ptr_shown (s : KS) (p : List String) (x : Val) :
+    shownAs (kindAt (.ptr s) p) x = shownAs (kindAt s p) x := by
+  cases p <;> simp [kindAt, shownAs, encodeV]
 
 mutual
 theorem effective_shows : ∀ (S : KS) (t : TV) (p : List String) (x : Val),
     shape S t = true → getS S t p = some (.atom x) → (kindAt S p).map isLeafKind = some true →
-    evGet (encodeV S t) p = some (shown ((kindAt S p).map isOpaqueKind) x)
+    evGet (encodeV S t) p = shownAs (kindAt S p) x
   | .ptr s, t, p, x, hs, hg, hk => by
     cases t with
     | nilp => cases p <;> simp [getS] at hg
     | atom a =>
       rw [getS_ptr s _ p (by simp)] at hg
       rw [kindAt_ptr_leaf] at hk
-      rw [kindAt_ptr_opaque]
+      rw [kindAt_ptr_shown]
       simp only [encodeV]
       exact effective_shows s (.atom a) p x (by simpa only [shape] using hs) hg hk
     | struct tfs =>
       rw [getS_ptr s _ p (by simp)] at hg
       rw [kindAt_ptr_leaf] at hk
-      rw [kindAt_ptr_opaque]
+      rw [kindAt_ptr_shown]
       simp only [encodeV]
       exact effective_shows s (.struct tfs) p x (by simpa only [shape] using hs) hg hk
   | .struct fs, t, p, x, hs, hg, hk => by
@@ -391,35 +391,35 @@ theorem effective_shows : ∀ (S : KS) (t : TV) (p : List String) (x : Val),
   | .scalar, t, p, x, hs, hg, hk => by
     cases p with
     | cons k p => simp [kindAt] at hk
-    | nil => simp [getS] at hg; subst hg; simp [encodeV, evGet, kindAt, isOpaqueKind, shown]
+    | nil => simp [getS] at hg; subst hg; simp [evGet, kindAt, shownAs]
   | .opaque, t, p, x, hs, hg, hk => by
     cases p with
     | cons k p => simp [kindAt] at hk
-    | nil => simp [getS] at hg; subst hg; simp [encodeV, evGet, kindAt, isOpaqueKind, shown]
+    | nil => simp [getS] at hg; subst hg; simp [evGet, kindAt, shownAs]
   | .text _, t, p, x, hs, hg, hk => by
     cases p with
     | cons k p => simp [kindAt] at hk
-    | nil => simp [getS] at hg; subst hg; simp [encodeV, evGet, kindAt, isOpaqueKind, shown]
+    | nil => simp [getS] at hg; subst hg; simp [evGet, kindAt, shownAs]
   | .custom _, t, p, x, hs, hg, hk => by
     cases p with
     | cons k p => simp [kindAt] at hk
-    | nil => simp [getS] at hg; subst hg; simp [encodeV, evGet, kindAt, isOpaqueKind, shown]
+    | nil => simp [getS] at hg; subst hg; simp [evGet, kindAt, shownAs]
   | .iface, t, p, x, hs, hg, hk => by
     cases p with
     | cons k p => simp [kindAt] at hk
-    | nil => simp [getS] at hg; subst hg; simp [encodeV, evGet, kindAt, isOpaqueKind, shown]
+    | nil => simp [getS] at hg; subst hg; simp [evGet, kindAt, shownAs]
   | .slice _, t, p, x, hs, hg, hk => by
     cases p with
     | cons k p => simp [kindAt] at hk
-    | nil => simp [getS] at hg; subst hg; simp [encodeV, evGet, kindAt, isOpaqueKind, shown]
+    | nil => simp [getS] at hg; subst hg; simp [evGet, kindAt, shownAs]
   | .map _ _, t, p, x, hs, hg, hk => by
     cases p with
     | cons k p => simp [kindAt] at hk
-    | nil => simp [getS] at hg; subst hg; simp [encodeV, evGet, kindAt, isOpaqueKind, shown]
+    | nil => simp [getS] at hg; subst hg; simp [evGet, kindAt, shownAs]
 theorem effectiveF : ∀ (fs : List (String × KS)) (tfs : List (String × TV)) (k : String) (p : List String) (x : Val),
     shapeF fs tfs = true → getSF fs tfs k p = some (.atom x) → (kindAtF fs k p).map isLeafKind = some true →
     (((encodeF fs tfs).find? (fun q => q.1 == k)).map (·.2)).bind (fun e => evGet e p)
-      = some (shown ((kindAtF fs k p).map isOpaqueKind) x)
+      = shownAs (kindAtF fs k p) x
   | [], tfs, k, p, x, hs, hg, hk => by simp [kindAtF] at hk
   | (k0, s0) :: fs, [], k, p, x, hs, hg, hk => by simp [shapeF] at hs
   | (k0, s0) :: fs, (kt, t0) :: tfs, k, p, x, hs, hg, hk => by
